@@ -238,8 +238,8 @@ def run_c12(prop, tier, seed, replay=None):
     else:
         if tier == "quick":
             one = mc_scenarios(work, rep, "MC_SchemaJson_quick.cfg")
-            scns = sample_evenly(one, 560)
-            nfam, depth, nhash = 80, 3, 600
+            scns = sample_evenly(one, 420)
+            nfam, depth, nhash = 60, 3, 500
         else:
             one = mc_scenarios(work, rep, "MC_SchemaJson_quick.cfg")
             two = mc_scenarios(work, rep, "MC_SchemaJson_thorough.cfg", timeout=2400)
